@@ -438,10 +438,37 @@ def whomaywrite(F, rep, bodies):
                             "%s takes the write lock of `documents` itself: stored text/version can change without a "
                             "matching analysis and publication (only analyze_document stores, only did_close removes)"
                             % name, file=f.file, line=f.line, fn=p))
+    # analyze_document: every way through it publishes - the diagnostics the client holds last must belong to the
+    # latest version, so a version for which nothing is published leaves an older version's diagnostics standing
+    fa = next((g for p, g in bodies.items() if p.endswith("::analyze_document::{closure#0}")), None)
+    if rep.anchor("ALWAYSPUBLISH", "analyze_document", fa):
+        pubs = {bi for bi, t in fa.calls() if "publish_diagnostics" in (callee_name(t) or "")}
+        rets = [bi for bi in range(len(fa.blocks)) if fa.term(bi)["t"] == "return"]
+        rep.floor("ALWAYSPUBLISH", "publish_diagnostics calls in analyze_document", len(pubs), 2)
+        silent = any(r in fa.reachable(0, avoid=pubs) for r in rets)
+        rep.oblige("ALWAYSPUBLISH", "analyze_document", not silent,
+                   sample={"rule": "ALWAYSPUBLISH", "publish_sites": len(pubs), "returns": len(rets)})
+        if silent:
+            rep.add(Finding("ALWAYSPUBLISH", "ALWAYSPUBLISH|analyze_document",
+                            "analyze_document can return without publishing diagnostics for the version it was "
+                            "given: the client keeps the diagnostics of an older version (e.g. a syntax error that an "
+                            "undo has already removed)", file=fa.file, line=fa.line, fn=fa.path))
     # did_change: on the `Some(change)` edge every path reaches analyze_document
     f = next((g for p, g in bodies.items() if p.endswith("::did_change::{closure#0}")), None)
     if f is not None:
         from engines import discr_switches, postdominators
+        # the change that is analysed is taken unconditionally (first / next), never selected by its content
+        selective = ("find", "find_map", "filter", "filter_map", "skip_while", "take_while", "position", "rfind",
+                     "max_by_key", "min_by_key", "max_by", "min_by")
+        sel = sorted({(callee_generic(t) or "").split("::")[-1].split("<")[0] for _, t in f.calls()} & set(selective))
+        rep.oblige("WHOMAYWRITE", "did_change:takes-the-change-unconditionally", not sel,
+                   sample={"rule": "WHOMAYWRITE", "selective_adaptors_in_did_change": sel})
+        if sel:
+            rep.add(Finding("WHOMAYWRITE", "WHOMAYWRITE|did_change|selects-by-content",
+                            "did_change picks the change to analyse with a content-dependent adaptor (%s): a "
+                            "notification whose change does not satisfy it is dropped without analysis, so the "
+                            "stored text and the published diagnostics stay at an older version" % ", ".join(sel),
+                            file=f.file, line=f.line, fn=f.path))
         calls = [bi for bi, t in f.calls() if (callee_name(t) or "").endswith("analyze_document")]
         sw = [s for s in discr_switches(f) if s["adt"].endswith("option::Option") and "Some" in s["explicit"]]
         if calls and sw:
